@@ -528,6 +528,53 @@ pub fn drive(log: &mut Log) {
         }
     }
 
+    // (i) width dispatch of suffix_array(): alphabet.len() + sentinel_count = a for every a in 250..=262,
+    //     varying both the number of reads (= sentinel occurrences) and the number of distinct letters
+    for a in 250..=262usize {
+        let ds: Vec<usize> = if th { vec![1, 4, 5, 20, 60, 120] } else { vec![5, [1, 4, 20, 60][a % 4]] };
+        for &dl in &ds {
+            case += 1;
+            if !log.mine(case) {
+                continue;
+            }
+            let mut rng = Rng::new(seed, 16, case);
+            let letters: Vec<u8> = if dl == 5 { b"ACGTN".to_vec() } else { (0..dl as u8).map(|i| b'%' + i).collect() };
+            let reads = a - (dl + 1); // alphabet.len() = dl letters + the sentinel
+            let mut text: Vec<u8> = vec![];
+            for r in 0..reads {
+                text.push(letters[r % dl]); // every letter occurs
+                for _ in 0..rng.range(0, 2) {
+                    text.push(*rng.pick(&letters));
+                }
+                text.push(b'$');
+            }
+            let plan = Plan { lcp: false, sus: false, samples: grid(text.len(), &[3], case, 1) };
+            run_bytes(log, "wsw", &text, &plan);
+            log.oblige("width_boundary_sweep_250_262");
+        }
+    }
+    // the 16/32 bit twin of that boundary (thorough only; validated in witness form)
+    if th {
+        for &a in &[65_537usize, 65_538] {
+            case += 1;
+            if !log.mine(case) {
+                continue;
+            }
+            let mut rng = Rng::new(seed, 17, case);
+            let reads = a - 6; // ACGTN + sentinel
+            let mut text: Vec<u8> = Vec::with_capacity(reads * 2);
+            for r in 0..reads {
+                text.push(b"ACGTN"[r % 5]);
+                if rng.chance(1, 4) {
+                    text.push(*rng.pick(b"ACGTN"));
+                }
+                text.push(b'$');
+            }
+            run_big(log, "big16", &text);
+            log.oblige("width_boundary_65538");
+        }
+    }
+
     // (g) more than 65,535 sentinel occurrences: ranks of the transformed text need 32 bits
     for v in 0..log.opts.n(1, 2) {
         case += 1;
